@@ -59,7 +59,8 @@ P = {
     "C10": dict(theorems=["Properties/C10.v"], runs=[dict(cmd="c10", quick=8, thorough=10, shards_thorough=8)], vm_k=4),
     "C29": dict(theorems=["Properties/C29.v"], runs=[dict(cmd="c29", quick=8, thorough=30, shards_thorough=8)], vm_k=4),
     "C12": dict(theorems=["Properties/C12.v"],
-                runs=[dict(cmd="c12", quick=6000, thorough=120000, shards_thorough=4)], vm_k=44),
+                runs=[dict(cmd="c12", quick=6000, thorough=120000, shards_thorough=4),
+                      dict(cmd="c12tx", quick=40, thorough=800, shards_thorough=8)], vm_k=44),
     "C24": dict(theorems=["Properties/C24.v"],
                 runs=[dict(cmd="c24", quick=300, thorough=4000, shards_thorough=4)], vm_k=40),
     "C07": dict(theorems=["Properties/C07.v"],
@@ -205,7 +206,10 @@ META = {
              "amount, sell-all = reserve, buy-then-sell <= paid; the integer branches of formula.go (amount 0, crr 100, "
              "sell = supply) equal the curve exactly; tolerance transfer; check_within decides "
              "|f-ideal| <= 2^-33 ideal + 1 exactly. The four real formula.Calculate* functions are called on sampled "
-             "inputs and each result is checked by the extracted Coq checker and by direct monitors.",
+             "inputs and each result is checked by the extracted Coq checker and by direct monitors. At the transaction level (run c12tx): "
+             "sell / buy / sell-all coin transactions on a real node are compared with model 19 (SwapTx.v: the amounts are the "
+             "formulas applied to the curve without the fee when the fee came out of that coin's reserve) and the monitor "
+             "c12-tx-off-curve recomputes tx.return with formula.Calculate* on that curve.",
         note=TB + "PARTIAL: 'the 100-bit big.Float branch is within 2^-33*ideal+1' is validated on samples (observed max "
              "2^-43.9 for supply,reserve < 2^96), not proved; the round-trip transfer is proved only when the purchased "
              "amount does not exceed the curve. KNOWN FINDING c12-tolerance-above-2^96: supply > 2^96 breaks the tolerance (100-bit mantissa).",
